@@ -335,6 +335,129 @@ def _poison(q, rng):
     return None
 
 
+def _id_neighbours(i, rng):
+    """ids that a sloppy cache key could confuse with `i`: the same cell with one curve digit changed (the leading ones above all:
+    the bits a packed key loses first), the same curve position one level deeper / shallower, the same digits in another quintant / face"""
+    from . import spec
+    d = spec.decode(i)
+    if d is None:
+        return []
+    res, T, dg = d
+    out = []
+    if res >= 2:
+        L = len(dg)
+        for pos, ks in ((0, (1, 2, 3)), (min(1, L - 1), (rng.randrange(1, 4),)), (rng.randrange(L), (rng.randrange(1, 4),))):
+            for k in ks:
+                nd = list(dg)
+                nd[pos] = (nd[pos] + k) % 4
+                out.append(spec.encode(res, T, tuple(nd)))
+        if res < 29:
+            out.append(spec.encode(res + 1, T, (0,) + dg))
+        if dg[0] == 0:
+            out.append(spec.encode(res - 1, T, dg[1:]))
+    if res >= 1:
+        out.append(spec.encode(res, (T // 5) * 5 + (T + 1 + rng.randrange(4)) % 5, dg))
+        out.append(spec.encode(res, (T + 5 * rng.randrange(1, 12)) % 60, dg))
+    return [x for x in out if x != i]
+
+
+def _neighbours(q, ans, rng):
+    """requests next to `q` (valid ones, answered by the model as well) that are asked directly before and after it in the neighbour pass,
+    plus the calls a user would make next with the value `q` returned"""
+    from . import geo
+    t = q.split()
+    op = t[0]
+    out = []
+    try:
+        if op in ("cell_to_lonlat", "cell_to_boundary_default", "deserialize", "get_resolution") and len(t) == 2:
+            out = [f"{op} {x}" for x in _id_neighbours(int(t[1]), rng)]
+        elif op in ("cell_to_boundary", "cell_to_children", "cell_to_parent", "contains") and len(t) >= 3:
+            out = [" ".join([op, str(x)] + t[2:]) for x in _id_neighbours(int(t[1]), rng)]
+        elif op == "lonlat_to_cell" and len(t) == 4:
+            lon, lat, r = geo.fx(t[1]), geo.fx(t[2]), int(t[3])
+            out = [f"{op} {t[1]} {t[2]} {r2}" for r2 in (r - 1, r + 1) if 0 <= r2 <= 29]
+            if lon == lon and abs(lon) < 1e6:
+                out += [f"{op} {geo.hx(lon + k)} {t[2]} {r}" for k in rng.sample([-1080.0, -720.0, -360.0, 360.0, 720.0, 1080.0], 2)]
+            if abs(lon) <= 90.0:
+                out.append(f"{op} {t[2]} {t[1]} {r}")          # coordinates exchanged
+            if ans and ans.startswith("ok "):
+                cid = ans.split()[1]
+                out += [f"cell_to_lonlat {cid}", f"cell_to_boundary_default {cid}"]
+        elif op in ("dodeca_forward", "dodeca_inverse") and len(t) == 4:
+            out = [f"{op} {t[2]} {t[1]} {t[3]}", f"{op} {t[1]} {t[2]} {(int(t[3]) + rng.randrange(1, 12)) % 12}"]
+        elif op == "s_to_anchor" and len(t) == 4:
+            sv, n, o = int(t[1]), int(t[2]), int(t[3])
+            if n >= 1:
+                top = 4 ** (n - 1)
+                out += [f"{op} {(sv + k * top) % (4 ** n)} {n} {o}" for k in (1, 2, 3)]
+                if n >= 2:
+                    out.append(f"{op} {(sv + rng.randrange(1, 4) * 4 ** rng.randrange(n - 1)) % (4 ** n)} {n} {o}")
+                if sv < top:
+                    out.append(f"{op} {sv} {n - 1} {o}")
+            if n < 30:
+                out.append(f"{op} {sv} {n + 1} {o}")
+            out.append(f"{op} {sv} {n} {(o + rng.randrange(1, 6)) % 6}")
+        elif op == "ij_to_s" and len(t) == 5:
+            out = [f"{op} {t[2]} {t[1]} {t[3]} {t[4]}", f"{op} {t[1]} {t[2]} {t[3]} {(int(t[4]) + rng.randrange(1, 6)) % 6}"]
+    except (ValueError, IndexError, OverflowError):
+        return []
+    return [x for x in out if x != q]
+
+
+def neighbour_pass(run, exe, requests, model, canon, label, isolate, timeout):
+    """A cache keyed by fewer bits than the arguments have (a packed word that drops the top digits, a fingerprint that forgets one
+    component or their order) answers a call with the result of a DIFFERENT call made just before.  Random streams never put two such
+    calls next to each other, so this pass does: each sampled request is asked, then a near-collision neighbour of it (one digit of the
+    id changed - the leading ones first -, the same curve position one level deeper, another quintant / face with the same digits,
+    coordinates exchanged or moved by whole turns, another orientation), then the request again; and a lookup is followed by the calls
+    a user makes next with the id it returned.  Every answer - of the neighbours too - must be the pure model's."""
+    canon = canon or default_canon
+    rng = random.Random(run.seed * 104729 + len(requests))
+    pure = [i for i, q in enumerate(requests) if q.split()[0] not in STATEFUL_OPS and len(q) < 2000 and len(model[i]) < 30000]
+    cap = run.n(1500, 12000)
+    if len(pure) > cap:
+        # deep cells first: that is where packed keys run out of bits
+        pure = rng.sample(pure, cap)
+    plan = []
+    extra = []
+    for i in pure:
+        ns = _neighbours(requests[i], model[i], rng)
+        if not ns:
+            continue
+        rng.shuffle(ns)
+        ns = ns[:4]
+        plan.append((i, range(len(extra), len(extra) + len(ns))))
+        extra += ns
+    if not extra:
+        return
+    emodel = run_driver(extra, timeout=timeout)
+    seq, back = [], []
+    for i, js in plan:
+        for j in js:
+            seq += [requests[i], extra[j]]
+            back += [("r", i), ("e", j)]
+        seq.append(requests[i]); back.append(("r", i))
+    out = run_stream(exe, seq, args=["--flush"], timeout=timeout, isolate=True, mem_bytes=(2 << 30) if isolate else (6 << 30),
+                     per_line_timeout=60, max_hangs=3)
+    bad = 0
+    for k, ((kind, i), a) in enumerate(zip(back, out)):
+        if a == "lost":
+            continue
+        q, m = (requests[i], model[i]) if kind == "r" else (extra[i], emodel[i])
+        if m == "bad-op":
+            continue
+        ca, cb = (canon(q, a), canon(q, m)) if canon else (a, m)
+        if ca != cb:
+            bad += 1
+            prev = seq[max(0, k - 2): k]
+            run.corr_disagreements.append({"request": q, "impl": a[:2000], "model": m[:2000], "suite": label + " [neighbour pass]", "history": prev})
+            if bad <= 5:
+                run.violation("a call is answered differently directly after a closely related call (same request alone: the model's answer; a cache key that does not separate the two calls gives this)",
+                              prev + [q], a[:300], {"answer_of_the_model": m[:300]})
+    run.corr_cases += len(seq)
+    run.extra["neighbour_pass_requests"] = run.extra.get("neighbour_pass_requests", 0) + len(seq)
+
+
 def reordered_pass(run, exe, requests, model, canon, label, isolate, timeout):
     """The model is a pure function of each request, so the implementation's answer must not depend on the calls made before:
     run a sample of the requests again in a different order, each followed (sometimes) by its own duplicate or by a related
@@ -426,6 +549,16 @@ def reordered_pass(run, exe, requests, model, canon, label, isolate, timeout):
                         run.violation("the result of a call changes while 8 threads repeat the same few calls at once (answer of the main thread before the threads started vs answer inside a thread)",
                                       q, a[9:300], {"answer_of_the_model": model[i][:300]})
                 run.extra["hammer_pass_requests"] = run.extra.get("hammer_pass_requests", 0) + len(hot)
+                # ... and during thread teardown: the same calls made by the destructor of an application thread-local on an exiting
+                # thread (per-thread state the library frees in its own destructor must not be handed out afterwards)
+                tout = run_stream(exe, [requests[i] for i in hot], args=["teardown"], timeout=min(timeout, 300), isolate=False, mem_bytes=6 << 30)
+                for i, a in zip(hot, tout):
+                    if a.startswith("MISMATCH ") or a in ("abort", "lost", "hang"):
+                        q = requests[i]
+                        run.corr_disagreements.append({"request": q, "impl": a[:2000], "model": model[i][:2000], "suite": label + " [thread teardown]"})
+                        run.violation("a call made while its thread is being torn down (from the destructor of an application thread-local) does not return the answer it returns otherwise",
+                                      q, a[:300], {"answer_of_the_model": model[i][:300]})
+                run.extra["teardown_pass_requests"] = run.extra.get("teardown_pass_requests", 0) + len(hot)
 
 
 def both(run, requests, label, profile="release", isolate=False, canon=None, timeout=1800, compare=True, reorder=True):
@@ -449,6 +582,8 @@ def both(run, requests, label, profile="release", isolate=False, canon=None, tim
             except Abort:
                 exe2 = exe
             reordered_pass(run, exe2, requests, model, canon, label + f" [{other} build]", isolate, timeout)
+            if len(run.corr_disagreements) == n0:
+                neighbour_pass(run, exe, requests, model, canon, label, isolate, timeout)
     return impl, model
 
 
